@@ -213,6 +213,26 @@ impl Run {
     fn produced(&mut self, ev: &str, mut fields: Value, t: Tok, root: Value) {
         let bytes = t.to_vec();
         let tok = self.p.project(&bytes);
+        // what the API reports as revocation identifiers, through the verified and the unverified view of the
+        // same bytes: j = the signature of block j, 100 + j = the external signature of block j, 0 = something else
+        let wire = schema::Biscuit::decode(&bytes[..]).expect("decode own token");
+        let mut sigs: Vec<(Vec<u8>, Option<Vec<u8>>)> = vec![(wire.authority.signature.clone(), None)];
+        for b in &wire.blocks {
+            sigs.push((b.signature.clone(), b.external_signature.as_ref().map(|e| e.signature.clone())));
+        }
+        let label = |id: &Vec<u8>| -> u64 {
+            for (j, (s, e)) in sigs.iter().enumerate() {
+                if s == id { return j as u64 + 1; }
+                if e.as_ref() == Some(id) { return 100 + j as u64 + 1; }
+            }
+            0
+        };
+        let rev_u: Vec<u64> = UnverifiedBiscuit::from(&bytes).map(|u| u.revocation_identifiers().iter().map(|x| label(x)).collect()).unwrap_or_default();
+        let rev_v: Vec<u64> = Biscuit::from(&bytes, keys::public_of(&root)).map(|b| b.revocation_identifiers().iter().map(|x| label(x)).collect()).unwrap_or_default();
+        let rev_t: Vec<u64> = match &t { Tok::V(b) => b.revocation_identifiers().iter().map(|x| label(x)).collect(), Tok::U(u) => u.revocation_identifiers().iter().map(|x| label(x)).collect() };
+        fields["rev_u"] = json!(rev_u);
+        fields["rev_v"] = json!(rev_v);
+        fields["rev_t"] = json!(rev_t);
         // the payload introduced by this op is the last block's
         if ev != "seal" {
             let pid = tok["blocks"].as_array().unwrap().last().unwrap()["payload"].as_str().unwrap().to_string();
